@@ -56,7 +56,7 @@ def main():
                 tier = "quick"
                 if ":" in c:
                     c, tier = c.split(":")
-                r = sh("cd /verif && ./check %s --tier %s" % (c, tier))
+                r = sh("cd /verif && timeout 2400 ./check %s --tier %s" % (c, tier))
                 viol = [l for l in r.stdout.splitlines() if l.startswith("VIOLATION")]
                 keys = []
                 ev = os.path.join("/verif/evidence", c + ".json")
